@@ -17,7 +17,8 @@ import fcntl, glob, hashlib, json, os, re, shutil, subprocess, sys, time
 
 ROOT = os.path.dirname(os.path.dirname(os.path.abspath(__file__)))
 REPO = os.environ.get("VERIF_REPO", "/repo")
-BUILD = os.path.join(ROOT, "build")
+BUILD = os.environ.get("VERIF_BUILD", os.path.join(ROOT, "build"))
+OUTROOT = os.environ.get("VERIF_OUT", ROOT)   # where evidence/ and replays/ are written (scratch runs against seeded trees)
 COQ = os.path.join(ROOT, "coq")
 sys.path.insert(0, os.path.join(ROOT, "tools"))
 import monitors  # noqa: E402
@@ -72,7 +73,9 @@ class Lock:
 
 # --------------------------------------------------------------------------- Coq
 def coq_sources():
-    return sorted(glob.glob(os.path.join(COQ, "*.v")))
+    """the development = the files listed in coq/_CoqProject (work in progress that is not listed yet is not part of it)"""
+    names = [l.strip() for l in open(os.path.join(COQ, "_CoqProject")) if l.strip().endswith(".v")]
+    return sorted(os.path.join(COQ, n) for n in names)
 
 
 def coq_build():
@@ -239,7 +242,7 @@ def case_id(text):
 
 
 def write_replay(prop, name, payload):
-    d = os.path.join(ROOT, "replays")
+    d = os.path.join(OUTROOT, "replays")
     os.makedirs(d, exist_ok=True)
     h = hashlib.sha256(json.dumps(payload, sort_keys=True).encode()).hexdigest()[:10]
     p = os.path.join(d, "%s-%s-%s.json" % (prop, name, h))
@@ -575,8 +578,8 @@ def write_evidence(res, violations):
     cov.update(res["extra"])
     ev = dict(property_id=prop, tier=res["tier"], seed=res["seed"], level="proof", coverage=cov,
               assumptions=ASSUMPTIONS, wall_s=round(time.time() - T0, 2), violations=violations)
-    os.makedirs(os.path.join(ROOT, "evidence"), exist_ok=True)
-    with open(os.path.join(ROOT, "evidence", "%s.json" % prop), "w") as f:
+    os.makedirs(os.path.join(OUTROOT, "evidence"), exist_ok=True)
+    with open(os.path.join(OUTROOT, "evidence", "%s.json" % prop), "w") as f:
         json.dump(ev, f, indent=1, default=lambda o: sorted(o) if isinstance(o, set) else str(o))
 
 
@@ -602,7 +605,7 @@ def decide(prop, res, rundir):
     if res.get("conc_violations"):
         cv = res["conc_violations"][0]
         rp = write_replay(prop, cv.get("kind", "conc"), cv)
-        print("VIOLATION property=%s replay=%s" % (prop, os.path.relpath(rp, ROOT)))
+        print("VIOLATION property=%s replay=%s" % (prop, os.path.relpath(rp, OUTROOT)))
         return 1
     if res["violations"]:
         v = res["violations"][0]
@@ -626,7 +629,7 @@ def decide(prop, res, rundir):
         rp = write_replay(prop, v["kind"], dict(property=prop, kind=v["kind"], what="the implementation's own trace violates the property",
                                                messages=msgs, case=(small or text), twin_case=v.get("twin"), seed=res["seed"],
                                                how_to_replay="./check %s --replay <this file>" % prop))
-        print("VIOLATION property=%s replay=%s" % (prop, os.path.relpath(rp, ROOT)))
+        print("VIOLATION property=%s replay=%s" % (prop, os.path.relpath(rp, OUTROOT)))
         nviol += 1
     elif res["crashes"] or res["diffs"] or res["broken"]:
         # a proof obligation, the build or the correspondence broke and the property's own monitor found no
@@ -635,7 +638,7 @@ def decide(prop, res, rundir):
         if res["diffs"] or res["crashes"]:
             found = deeper_search(prop, res, rundir)
         if found:
-            print("VIOLATION property=%s replay=%s" % (prop, os.path.relpath(found, ROOT)))
+            print("VIOLATION property=%s replay=%s" % (prop, os.path.relpath(found, OUTROOT)))
         else:
             what = []
             for b in res["broken"][:5]:
@@ -652,7 +655,7 @@ def decide(prop, res, rundir):
             rp = write_replay(prop, "unproved", dict(property=prop, what="the property is no longer shown to hold: the items below no longer check; "
                                                      "no input violating the property itself was found", no_longer_checks=what, case=first_case,
                                                      seed=res["seed"]))
-            print("VIOLATION property=%s replay=%s no-failing-input-found" % (prop, os.path.relpath(rp, ROOT)))
+            print("VIOLATION property=%s replay=%s no-failing-input-found" % (prop, os.path.relpath(rp, OUTROOT)))
         nviol += 1
     return nviol
 
